@@ -3,9 +3,53 @@ harness/registry.py — per property: claimed level, Lean modules and theorems, 
 The theorems listed here are the proof obligations of the property; each is audited with
 `#print axioms` on every run.
 """
+import json as _json
+import os as _os
+
 P = "CoCo.Props."
+with open(_os.path.join(_os.path.dirname(_os.path.abspath(__file__)), "theorems_asm.json")) as _fh:
+    _T = _json.load(_fh)
 
 REGISTRY = {
+    "C01": {
+        "level": "proof",
+        "modules": ["CoCoVerif.Props.C01"],
+        "theorems": _T["C01"],
+        "rule": "cases = the statement matrix (every non-pseudo mnemonic x every operand form of the README grammar x 18 boundary values x every literal "
+                "spelling; 73,055 statements, sampled at 6% in the quick tier, complete in the thorough tier) + all TFR/EXG register pairs and PSH/PUL "
+                "register lists (712) + EQU constants and labels in every operand position (5,624, sampled 25% in quick); each is assembled by the "
+                "implementation, its bytes decoded by the Lean datasheet decoder and compared with the meaning of the source form; distinct = "
+                "distinct (source, outcome) digest",
+        "assumptions": ["direct page assumed $00 (SETDP is ignored by the tool: part of finding A12/A11)", "ASCII source text"],
+    },
+    "C12": {
+        "level": "proof",
+        "modules": ["CoCoVerif.Props.C12", "CoCoVerif.Props.C01"],
+        "theorems": _T["C12"] + [P + "C01_partial", P + "table_matches_datasheet"],
+        "rule": "cases = the C01 matrix (out-of-range values, wrong registers, wrong modes are part of it) + random programs, README mutations and a "
+                "pool of tricky operand strings for every 7th mnemonic (all in thorough); every ACCEPTED instruction statement is decoded: one "
+                "complete instruction of that mnemonic, all bytes consumed, byte count = listed size",
+        "assumptions": ["ASCII source text"],
+    },
+    "C04": {
+        "level": "proof",
+        "modules": ["CoCoVerif.Props.C04"],
+        "theorems": _T["C04"],
+        "rule": "cases = {number, EQU symbol} op {number, EQU symbol} for + - * / over boundary values in every operand position (immediate, memory, "
+                "[..], index offset, PCR, FDB, FCB, EQU) (5,120; 30% sample in quick) + label+-k expressions with the label before and after use; "
+                "the value decoded at the position must equal the arithmetic value mod 65536 (or the statement is rejected when it does not fit / "
+                "divides by zero)",
+        "assumptions": ["ASCII source text"],
+    },
+    "C05": {
+        "level": "proof",
+        "modules": ["CoCoVerif.Props.C05"],
+        "theorems": _T["C05"],
+        "rule": "cases = FCB/FDB single values and lists (1..64 elements; every spelling, negatives, out-of-width, symbols), RMB counts, FCC strings of "
+                "printable ASCII with every delimiter choice, runs of spaces, ';', trailing comments, and the directives that must emit nothing; "
+                "bytes compared with the directive's specification",
+        "assumptions": ["ASCII source text"],
+    },
     "C06": {
         "level": "proof",
         "family": "cas",
@@ -67,6 +111,46 @@ NOT_BUILT = "check not built yet at this commit (work in progress; see DESIGN.md
 NOT_APPLICABLE = {("C%02d" % i): NOT_BUILT for i in range(1, 20)}
 
 MANIFEST_TEXT = {
+    "C01": {
+        "text": "Lean: (i) table_matches_datasheet / map_covered — the instruction table REGENERATED from /repo on every run agrees cell by cell (operation, "
+                "addressing mode, size) with the datasheet opcode map, both directions, by kernel evaluation over all 150 rows; (ii) C01_partial — for every "
+                "non-pseudo row and every operand in the proved Region (inherent; immediates 8/16; direct; extended; [extended indirect]; all no-offset, "
+                "auto inc/dec and accumulator forms for X Y U S and their indirect variants; 5/8/16-bit constant offsets; all 100 TFR/EXG pairs; push/pull "
+                "lists) translate+emit yields bytes that the datasheet decoder reads back as exactly that operation and operand, with byte count = size, "
+                "for ALL operand values; (iii) C01_Statement_false and ten C01_finding_* theorems: the full statement is false on the model and "
+                "each excluded region has a kernel-checked witness. The source-text front end (cascade of create_from_str) is tied by the exhaustive "
+                "statement matrix rather than proved.",
+        "design_ref": "DESIGN.md section 5 C01, section 6 A",
+        "note": "known findings A3-A11, A13, C3 (regions in known_findings.json); trusted: Spec/MC6809*.lean, Lean kernel, correspondence (statement matrix complete in the thorough tier, sampled in quick)",
+        "technique": "Lean 4 proof (kernel-evaluated table check + per-addressing-mode encode/decode theorems for all values) + differential correspondence + datasheet-decoder oracle",
+    },
+    "C12": {
+        "text": "Lean: C12_partial (soundness over the proved Region: accepted => decodes as one complete instruction of that mnemonic consuming all bytes, "
+                "count = size), C12_rejected, C12_Statement_false and eight C12_finding_* witnesses of accepted-but-malformed statements. Arbitrary operand "
+                "text is covered by the correspondence (model = code on matrix, random programs, mutations, tricky strings) plus the decoder oracle on "
+                "everything the implementation accepts.",
+        "design_ref": "DESIGN.md section 5 C12, section 6 A, H",
+        "note": "known findings as for C01; the grammar half (acceptance implies grammar-valid) is not proved: register detection by substring (A10) makes it false",
+        "technique": "Lean 4 proof (soundness dual of C01 on the proved region, refutation witnesses) + differential correspondence + datasheet-decoder oracle on accepted statements",
+    },
+    "C04": {
+        "text": "Lean: resolve_add/sub/mul/div (numeric x numeric expressions evaluate to the arithmetic value, negative results flagged, division by zero and "
+                "results above 65535 are errors), resolve_symbol_left/right and resolve_depends_only_on_lookup (EQU symbols are replaced by their table value: "
+                "definition order cannot matter), addrOffset_* (label +- constant = address +- constant at 16 bits), C04_partial, and C04_Statement_false with "
+                "three findings. Width-per-position is NOT proved: it is where findings A3/A7/A8/A9/A13/C2/C4 live; those positions are checked by the oracle.",
+        "design_ref": "DESIGN.md section 5 C04, section 6 C",
+        "note": "known findings A3, A7, A8, A9, A13, C2, C3, C4; trusted: Lean kernel, correspondence, decoder oracle",
+        "technique": "Lean 4 proof (expression evaluator and address-offset lemmas) + differential correspondence + arithmetic oracle on decoded operand values",
+    },
+    "C05": {
+        "text": "Lean: C05_partial — FCB/FDB single values and comma lists of literals emit exactly their bytes (big-endian words), RMB n emits n zero bytes for "
+                "every n, FCC emits exactly the characters of the parsed string, EQU/ORG/SETDP/NAM/END/INCLUDE emit nothing; proved from operand text for "
+                "decimal literals; C05_not_full* and twenty C05_finding_* witnesses for the excluded regions (negatives, single values above the width, symbols, "
+                "FCC reconstruction). C05_fixed_FCB_list_wide records the repaired list-element range check.",
+        "design_ref": "DESIGN.md section 5 C05, section 6 D",
+        "note": "known findings C2, D1, D2, D3, D4; trusted: Lean kernel, correspondence",
+        "technique": "Lean 4 proof (data-directive emission lemmas by induction over value lists / string / count) + differential correspondence + byte-exact oracle",
+    },
     "C07": {
         "text": "Lean theorems C07_write_list (for EVERY valid fill order and file list: list(write fs) = norm fs) and C07_reader_partial (the reader "
                 "returns exactly what the reference reader Spec.DiskBasic.read finds on ANY image satisfying Spec.DiskBasic.Fsck, chains in any order, "
